@@ -55,10 +55,12 @@ xor_window!(c11_xor_k3_c4_d12, 3, 4, 12, 14, 2);
 xor_window!(c11_xor_k8_c5_d20, 8, 5, 20, 22, 2);
 //@ id=C11 tier=thorough name=c11_xor_k2_c1_d12 timeout=2400 role=xor_window bound=key-2,buffer-1,file-12,3-pairs
 xor_window!(c11_xor_k2_c1_d12, 2, 1, 12, 14, 3);
-//@ id=C11 tier=thorough name=c11_xor_k8_c4_d20_3 timeout=3000 role=xor_window bound=key-8,buffer-4,file-20,3-pairs
+//@ id=C11 tier=extra name=c11_xor_k8_c4_d20_3 timeout=3000 role=xor_window bound=key-8,buffer-4,file-20,3-pairs
 xor_window!(c11_xor_k8_c4_d20_3, 8, 4, 20, 22, 3);
-//@ id=C11 tier=thorough name=c11_xor_k3_c16_d12 timeout=2400 role=xor_window bound=key-3,buffer-larger-than-file,file-12,3-pairs
+//@ id=C11 tier=extra name=c11_xor_k3_c16_d12 timeout=2400 role=xor_window bound=key-3,buffer-larger-than-file,file-12,3-pairs
 xor_window!(c11_xor_k3_c16_d12, 3, 16, 12, 18, 3);
+//@ id=C11 tier=thorough name=c11_xor_k3_c16_d12_2 timeout=2400 role=xor_window bound=key-3,buffer-larger-than-file,file-12,2-pairs
+xor_window!(c11_xor_k3_c16_d12_2, 3, 16, 12, 18, 2);
 
 // no key: plaintext passes through
 //@ id=C11 tier=quick name=c11_nokey timeout=600 role=xor_nokey bound=no-key,buffer-4,file-12
